@@ -176,6 +176,10 @@ def shard_unary(arg):
         acc.count("evaluations")
         acc.count("transitions", 8)
         a = geom.rot_angle(rots[k])
+        acc.outcome("angle<1e-6" if a < 1e-6 else "angle>pi-1e-6"
+                    if a > math.pi - 1e-6 else "cube-rotation"
+                    if np.array_equal(np.round(rots[k]), rots[k])
+                    else "generic")
         if a < 1e-3 or a > math.pi - 1e-3:
             acc.count("nontrivial")
         if msgs:
